@@ -68,8 +68,8 @@ LEVEL = {
             'design_ref': '5 C12',
             'note': _TB + 'net/http is trusted to deliver the handler\'s bytes and headers; url.QueryEscape / ParseForm are exercised, not modelled.'},
     'C16': {'text': 'Theorems: copy-like commands never answer diff and answer not-exist only for a missing source; no success => existing destination untouched; comparison verdicts are ok/diff/err. '
-                    'PARTIAL: absence of panic for all reachable file states is proved for the library calls (C01/C02 totality) but not yet restated over the command functions; '
-                    'the whole fault matrix is run against the real commands.',
+                    'no panic is proved for fetch (every id, window, contents), view, view-raw, diff, sum and sum-diff on files whose archives are well-formed rings; for copy / sum-copy a panic can only '
+                    'originate in the library batch update (panic-free by C02/C03 theorems; that composition is not a single theorem). The whole fault matrix is run against the real commands.',
             'design_ref': '5 C16',
             'note': _TB + 'A read-only destination directory cannot be exercised as root and is not part of the matrix.'},
     'C18': {'text': 'Theorems: view emits one record per slot of each selected series with instant from+k*step and the k-th fetched value, archive then time order; '
